@@ -9,7 +9,7 @@ export CARGO_TARGET_DIR="$wt/target"
 git checkout -q -- . ; git clean -fdq -e _seed -e target -e _TASK.txt .
 demo=$(python3 -c "import json;print(json.load(open('$d/meta.json')).get('demo_cmd',''))")
 git apply "$d/demo.diff" || { echo "RESULT $id demo.diff does not apply"; exit 2; }
-demo_test=$(git status --short | grep -o "seed_demo[a-z_0-9]*" | head -1)
+demo_test=$(git status --short -uall | grep -o "seed_demo[a-z_0-9]*" | head -1)
 cargo test --offline -q -p "$crate" --test "$demo_test" "$@" > /tmp/sv-$id-clean.log 2>&1; clean_rc=$?
 git apply "$d/patch.diff" || { echo "RESULT $id patch.diff does not apply"; exit 2; }
 cargo test --offline -q -p "$crate" --test "$demo_test" "$@" > /tmp/sv-$id-mut.log 2>&1; mut_rc=$?
